@@ -12,6 +12,9 @@ type shape struct {
 	Name     string
 	NeedZero bool
 	Depth    int
+	// Custom: additional (S→T) pairs served by custom functions declared in Decls; ConvLines: converter lines they need
+	Custom    map[string]string
+	ConvLines []string
 }
 
 type shapeGen struct{ n int }
@@ -46,8 +49,27 @@ type ctor struct {
 }
 
 func wrap(in shape, name, src, tgt string, decls ...string) shape {
-	return shape{Src: src, Tgt: tgt, Decls: append(append([]string{}, in.Decls...), decls...), Name: name + "_" + in.Name, NeedZero: in.NeedZero, Depth: in.Depth + 1}
+	return shape{Src: src, Tgt: tgt, Decls: append(append([]string{}, in.Decls...), decls...), Name: name + "_" + in.Name, NeedZero: in.NeedZero, Depth: in.Depth + 1, Custom: in.Custom, ConvLines: in.ConvLines}
 }
+
+// extra constructors used by some families only
+var ctorMapPtrKey = ctor{"mapptrk", func(g *shapeGen, in shape) shape {
+	return wrap(in, "mapptrk", "map[*int]"+in.Src, "map[*int]"+in.Tgt)
+}}
+
+// map whose key conversion goes through an extend function (the converted key differs from the source key)
+var ctorMapExtKey = ctor{"mapxk", func(g *shapeGen, in shape) shape {
+	k := g.id()
+	s := wrap(in, "mapxk", fmt.Sprintf("map[PFXXKA%d]%s", k, in.Src), fmt.Sprintf("map[PFXXKB%d]%s", k, in.Tgt),
+		fmt.Sprintf("type PFXXKA%d string\ntype PFXXKB%d string\nfunc PFXKeyExt%d(k PFXXKA%d) PFXXKB%d { return \"\" }", k, k, k, k, k))
+	s.Custom = map[string]string{}
+	for a, b := range in.Custom {
+		s.Custom[a] = b
+	}
+	s.Custom[fmt.Sprintf("PFXXKA%d→PFXXKB%d", k, k)] = fmt.Sprintf("PFXKeyExt%d", k)
+	s.ConvLines = append(append([]string{}, in.ConvLines...), fmt.Sprintf("extend PFXKeyExt%d", k))
+	return s
+}}
 
 var ctors = []ctor{
 	{"ptr", func(g *shapeGen, in shape) shape { return wrap(in, "ptr", "*"+in.Src, "*"+in.Tgt) }},
@@ -105,6 +127,15 @@ func shapeConv(family string, s shape, format string, extraConv []string, spec *
 		cv.Spec = &Spec{}
 	}
 	cv.ConvLines = append(cv.ConvLines, extraConv...)
+	cv.ConvLines = append(cv.ConvLines, s.ConvLines...)
+	if len(s.Custom) > 0 {
+		if cv.Spec.Custom == nil {
+			cv.Spec.Custom = map[string]string{}
+		}
+		for a, b := range s.Custom {
+			cv.Spec.Custom[a] = b
+		}
+	}
 	if s.NeedZero {
 		cv.ConvLines = append(cv.ConvLines, "useZeroValueOnPointerInconsistency")
 		cv.Spec.ZeroOnNil = true
@@ -136,6 +167,13 @@ func FamilyShape(thorough bool, seed int64) []*Conv {
 			}
 		}
 	}
+	// maps whose keys are (or contain) pointers
+	for _, ln := range []string{"int", "named"} {
+		out = append(out, shapeConv("shape", ctorMapPtrKey.F(g, g.leaf(ln)), nextFormat(), nil, nil))
+		out = append(out, shapeConv("shape", ctorByName("struct").F(g, ctorMapPtrKey.F(g, g.leaf(ln))), nextFormat(), nil, nil))
+		out = append(out, shapeConv("shape", ctorMapPtrKey.F(g, ctorByName("slice").F(g, g.leaf(ln))), nextFormat(), nil, nil))
+	}
+	out = append(out, shapeConv("shape", shape{Src: "map[PFXPK]int", Tgt: "map[PFXPK]int", Name: "mapstructptrkey", Decls: []string{"type PFXPK struct {\n\tP *int\n\tN string\n}"}}, nextFormat(), nil, nil))
 	if thorough {
 		rng := rand.New(rand.NewSource(seed))
 		leafNames := []string{"int", "string", "float64", "bool", "uint8", "named"}
